@@ -1,6 +1,7 @@
 import DmrVerif.Driver.Loop
 import DmrVerif.Driver.Ipsc
 
-/-! model driver for property C13 (Hytera IPSC frames) -/
+/-! model driver for property C13 (Hytera IPSC frames): the stateless codec operations plus the object
+history (`h.*` operations thread a `Heap` of decoded `HyteraIPSC` objects through the lines of one run) -/
 
-def main : IO Unit := Dmr.Driver.runMain [Dmr.Driver.ipscOp]
+def main : IO Unit := Dmr.Driver.runMainS Dmr.Driver.ipscStep Dmr.Ipsc.Heap.empty
